@@ -5,6 +5,7 @@ package main
 import (
 	"fmt"
 	"go/token"
+	"go/types"
 	"strings"
 
 	"golang.org/x/tools/go/ssa"
@@ -19,6 +20,7 @@ func init() {
 func checkC04(c *Ctx, r *Report) {
 	c04verdict(c, r, "C04-verdict")
 	c04frame(c, r, "C04-frame")
+	hdrCheckRule(c, r, "C04-hdrcheck")
 	c04closeVerdict(c, r, "C04-close-verdict")
 	r.Rule("C04-deliver", 3, "only verified data is delivered; sent only after confirmation")
 	c02process(c, r, "C04-deliver")
@@ -131,9 +133,28 @@ func c04verdict(c *Ctx, r *Report, rule string) {
 					verdict = k
 				}
 			}
+			// the reader variable may also hold another decompressor (gzip for type D proposals): only
+			// lzhuf.Reader keeps a failed read sticky until Close, so for a mixed variable the error of
+			// every read has to be tested
+			mixed := false
+			for a := range alias {
+				if ph, ok := a.(*ssa.Phi); ok {
+					for _, e := range ph.Edges {
+						if !alias[e] {
+							mixed = true
+						}
+					}
+				}
+			}
 			// the read error too
 			readChecked := true
 			for _, rd := range reads {
+				if rv := rd.Value(); rv != nil && errResult(rv) == nil && mixed && rv.Type().String() != "()" {
+					if tup, ok := rv.Type().(*types.Tuple); ok && tup.Len() > 0 && tup.At(tup.Len()-1).Type().String() == "error" {
+						readChecked = false
+						why = "the error of the read at " + c.pos(rd.Pos()) + " is discarded, and the reader may be a decompressor other than lzhuf.Reader (gzip for type D proposals), whose checksum and length verdict is only reported by Read - its Close returns nil: a damaged gzip payload is delivered as a good message"
+					}
+				}
 				if rv := rd.Value(); rv != nil && errResult(rv) != nil {
 					for _, ret := range returnsOf(fn) {
 						if isErrorExit(ret) || isNilConst(resOf(ret, 0)) {
